@@ -350,9 +350,18 @@ def finish(prop, tier, seed, merged, t0, level='model_checking', bounds=None, ou
         v['native'] = {'dev': desc, 'release': desc}
         v['timing_confirmed'] = slow
     specs = [v for v in viol if v.get('replay') and v['replay'].get('program') and not v['replay'].get('timing')]
-    progs = [v['replay']['program'] for v in specs]
-    res_dev = nlrun(progs, 'dev', timeout_ms=20000) if progs else []
-    res_rel = nlrun(progs, 'release', timeout_ms=20000) if progs else []
+    # each distinct program runs once per profile; per counterexample class at most MAXR programs are replayed (shortest first) —
+    # the others of the class share its verdict (they are listed in the replay file as further counterexamples)
+    MAXR = 4; per_cls = {}; chosen = set()
+    for v in sorted(specs, key=lambda v: len(v['replay']['program'])):
+        c = per_cls.setdefault(v['class'], [])
+        if v['replay']['program'] in chosen or len(c) < MAXR: c.append(v); chosen.add(v['replay']['program'])
+    uniq = sorted(chosen)
+    out_dev = dict(zip(uniq, nlrun(uniq, 'dev', timeout_ms=12000))) if uniq else {}
+    out_rel = dict(zip(uniq, nlrun(uniq, 'release', timeout_ms=12000))) if uniq else {}
+    skipped = [v for v in specs if v['replay']['program'] not in chosen]
+    specs = [v for v in specs if v['replay']['program'] in chosen]
+    res_dev = [out_dev[v['replay']['program']] for v in specs]; res_rel = [out_rel[v['replay']['program']] for v in specs]
     confirmed, nonrepro = [], []
     for v, d, r in zip(specs, res_dev, res_rel):
         exp = v['replay'].get('expect')
@@ -371,6 +380,10 @@ def finish(prop, tier, seed, merged, t0, level='model_checking', bounds=None, ou
     for v in tspecs:
         if v['replay'].get('program') is None: continue
         (confirmed if v.get('timing_confirmed') else nonrepro).append(v)
+    conf_classes = {v['class'] for v in confirmed}
+    for v in skipped:
+        v['native'] = {'dev': '(not replayed: further counterexample of a class whose shortest programs were replayed)', 'release': ''}
+        (confirmed if v['class'] in conf_classes else nonrepro).append(v)
     unreplayable =[v for v in viol if not (v.get('replay') and v['replay'].get('program'))]
     # ---- classification
     new, matched = [], {}
